@@ -92,12 +92,19 @@ Theorem C12_unit_ball_shape : forall t ws out rest, evals (unit_ball t ws) (out,
 Proof. exact unit_ball_in_ball. Qed.
 Print Assumptions C12_unit_ball_shape.
 
-(* the hypothesis that the components denote reals cannot be dropped for UnitCircle: (0,0) is accepted and
-   gives 0/0 (the crate returns [NaN, NaN] on these words) *)
-Theorem C12_circle_nan_witness : forall t, exists out,
-  evals (unit_circle t [2 ^ 63; 2 ^ 63]%Z) (out, []) /\ Forall (fun e => evalX e = Xnan) out.
-Proof. exact circle_nan_witness. Qed.
-Print Assumptions C12_circle_nan_witness.
+(* UnitCircle never returns NaN: every result consists of two REAL numbers on the circle (the origin candidate, which
+   would give 0/0, is rejected since fix 4622ae6 of the crate; before it this statement was false and the file carried the
+   witness `circle_nan_witness` instead) *)
+Theorem C12_unit_circle_real : forall t ws out rest, evals (unit_circle t ws) (out, rest) ->
+  exists e1 e2 a b, out = [e1; e2] /\ evalX e1 = Xreal a /\ evalX e2 = Xreal b /\ a ^ 2 + b ^ 2 = 1.
+Proof. exact unit_circle_real. Qed.
+Print Assumptions C12_unit_circle_real.
+
+(* the words that make both draws exactly 0 are skipped like any rejected candidate *)
+Theorem C12_circle_origin_rejected : forall t ws out,
+  evals (unit_circle t (2 ^ 63 :: 2 ^ 63 :: ws)%Z) out <-> evals (unit_circle_loop 63 t ws) out.
+Proof. exact circle_origin_rejected. Qed.
+Print Assumptions C12_circle_origin_rejected.
 
 (* ---- instances ----------------------------------------------------------------------------------------- *)
 (* the point (3/5, 1/5) of the disc goes to (4/5, 3/5) on the circle *)
